@@ -19,13 +19,13 @@ Ev(x) == l <= Len(Trace) /\ Trace[l].ev = x
 E == Trace[l]
 Cnt(q, P(_)) == Cardinality({i \in 1..Len(q) : P(q[i])})
 SeqSet(q) == {q[i] : i \in 1..Len(q)}
-RSig == (IF tp = "ws" THEN "ws/" ELSE "") \o rd.drop \o ":" \o (IF rd.attempts = <<>> THEN "-" ELSE rd.attempts[1]) \o (IF Len(rd.attempts) > 1 THEN "+" ELSE "")
+RSig == (IF tp = "ws" THEN "ws/" ELSE "") \o rd.drop \o (IF rd.inpost THEN "-during-post-connect" ELSE "") \o ":" \o (IF rd.attempts = <<>> THEN "-" ELSE rd.attempts[1]) \o (IF Len(rd.attempts) > 1 THEN "+" ELSE "")
 
 NewRound == /\ accepts' = <<>> /\ ups' = <<>> /\ kinds' = <<>> /\ posts' = 0 /\ hdls' = <<>> /\ sends' = <<>> /\ msgs' = <<>> /\ refusedOK' = TRUE
 
-T_Reset == /\ Ev("reset") /\ tid' = E.tid /\ sm' = E.sm /\ tp' = E.transport /\ rd' = [i |-> 0, drop |-> "none", attempts |-> <<>>, resume |-> "accept"]
+T_Reset == /\ Ev("reset") /\ tid' = E.tid /\ sm' = E.sm /\ tp' = E.transport /\ rd' = [i |-> 0, drop |-> "none", attempts |-> <<>>, resume |-> "accept", inpost |-> FALSE]
            /\ NewRound /\ smKnown' = FALSE /\ dead' = FALSE /\ l' = l + 1 /\ UNCHANGED verdicts
-T_Round == /\ Ev("round") /\ rd' = [i |-> E.i, drop |-> E.drop, attempts |-> E.attempts, resume |-> E.resume] /\ NewRound
+T_Round == /\ Ev("round") /\ rd' = [i |-> E.i, drop |-> E.drop, attempts |-> E.attempts, resume |-> E.resume, inpost |-> E.inpost] /\ NewRound
            /\ l' = l + 1 /\ UNCHANGED <<tid, sm, tp, smKnown, dead, verdicts>>
 T_Accept == /\ Ev("accept") /\ accepts' = Append(accepts, E.outcome)
             /\ l' = l + 1 /\ UNCHANGED <<tid, sm, tp, rd, ups, kinds, posts, hdls, sends, msgs, refusedOK, smKnown, dead, verdicts>>
@@ -86,7 +86,7 @@ T_Skip == /\ (Ev("fin") \/ Ev("stopinoutage") \/ Ev("note") \/ Ev("errcb") \/ Ev
           /\ l' = l + 1 /\ UNCHANGED <<tid, sm, tp, rd, accepts, ups, kinds, posts, hdls, sends, msgs, refusedOK, smKnown, dead, verdicts>>
 T_End == /\ Ev("end") /\ PrintT(<<"VERDICTS", ToJson(VL!All)>>) /\ PrintT(<<"CONSUMED", l>>)
          /\ l' = l + 1 /\ UNCHANGED <<tid, sm, tp, rd, accepts, ups, kinds, posts, hdls, sends, msgs, refusedOK, smKnown, dead, verdicts>>
-TraceInit == /\ l = 1 /\ tid = 0 /\ sm = FALSE /\ tp = "tcp" /\ rd = [i |-> 0, drop |-> "none", attempts |-> <<>>, resume |-> "accept"] /\ accepts = <<>> /\ ups = <<>>
+TraceInit == /\ l = 1 /\ tid = 0 /\ sm = FALSE /\ tp = "tcp" /\ rd = [i |-> 0, drop |-> "none", attempts |-> <<>>, resume |-> "accept", inpost |-> FALSE] /\ accepts = <<>> /\ ups = <<>>
              /\ kinds = <<>> /\ posts = 0 /\ hdls = <<>> /\ sends = <<>> /\ msgs = <<>> /\ refusedOK = TRUE /\ smKnown = FALSE /\ dead = FALSE
              /\ verdicts = 0 /\ VL!InitV
 TraceNext == T_Reset \/ T_KaObs \/ T_Round \/ T_Accept \/ T_Neg \/ T_Up \/ T_Post \/ T_Hdl \/ T_Send \/ T_Msg \/ T_Refused \/ T_Quiet \/ T_RunRet
